@@ -24,6 +24,10 @@ Judge(e, r, codes) ==
   ELSE IF KnownF5 /\ F5Class(e, r) THEN PrintT(<<"KNOWN-FINDING", "F5">>) /\ UNCHANGED rrvars
   ELSE Violation(e, codes)
 
+\* the deviation is taken only when the endpoint really went on (its next connection end, if any, is not its own transport error)
+F16Ahead(i, e) == LET J == {j \in (i + 1)..NRec : Rec[j].ev = "reset" \/ (Rec[j].ev = "conn_closed" /\ Rec[j].ep = e)} IN
+                  J = {} \/ LET j == CHOOSE x \in J : \A y \in J : x <= y IN
+                             Rec[j].ev = "reset" \/ ~(Rec[j].error.kind = "transport" /\ Rec[j].error.local)
 T_RxF == IsEvent("rxf") /\ LET r == Rec[l]
                                e == r.ep IN
   IF mustClose[e] # {} THEN UNCHANGED rrvars          \* frames after the violation in the same packet are not judged
@@ -40,6 +44,13 @@ T_RxF == IsEvent("rxf") /\ LET r == Rec[l]
          [] r.ty = "reset_stream" ->
               LET v == ResetVerdict(e, r.id, r.final) IN
               IF v # {} /\ r.id \in done[e] /\ v # {STREAM_LIMIT_ERROR} /\ v # {STREAM_STATE_ERROR} THEN UNCHANGED rrvars
+              \* known finding F16: while no final size is known, a RESET_STREAM whose final size lies BELOW data already
+              \* received is accepted (receive_stream.rs init_reset compares only with a final size learnt before)
+              ELSE IF KnownF16 /\ v = {FINAL_SIZE_ERROR} /\ finalSz[e][r.id] = None /\ r.final < recvEnd[e][r.id] /\ F16Ahead(l, e)
+                   THEN /\ PrintT(<<"KNOWN-FINDING", "F16">>)
+                        /\ finalSz' = [finalSz EXCEPT ![e][r.id] = r.final]
+                        /\ done' = [done EXCEPT ![e] = @ \cup {r.id}]
+                        /\ UNCHANGED <<cfg, advSD, advD, advStreams, recvEnd, opened, consumed, mustClose>>
               ELSE IF v # {} THEN Judge(e, r, v)
               ELSE /\ recvEnd' = [recvEnd EXCEPT ![e][r.id] = Max2(@, r.final)]
                    /\ finalSz' = [finalSz EXCEPT ![e][r.id] = r.final]
@@ -77,7 +88,9 @@ T_TxF == IsEvent("txf") /\ LET r == Rec[l]
 T_AppOpen == IsEvent("app_open") /\ opened' = [opened EXCEPT ![Rec[l].ep][IsBidi(Rec[l].id)] = @ + 1]
              /\ UNCHANGED <<cfg, advSD, advD, advStreams, recvEnd, finalSz, done, consumed, mustClose>>
 T_AppRecv == IsEvent("app_recv") /\ LET r == Rec[l] IN
-  /\ mustClose[r.ep] = {}                           \* none of the offending data (nor anything after it) reaches the application
+  \* none of the offending data reaches the application: once a violation was seen only bytes that had arrived (and were
+  \* acceptable) before it may still be handed out
+  /\ (mustClose[r.ep] = {} \/ r.off + r.len <= recvEnd[r.ep][r.id])
   /\ consumed' = [consumed EXCEPT ![r.ep][r.id] = @ + r.len]
   /\ UNCHANGED <<cfg, advSD, advD, advStreams, recvEnd, finalSz, done, opened, mustClose>>
 T_AppEos == IsEvent("app_eos") /\ done' = [done EXCEPT ![Rec[l].ep] = @ \cup {Rec[l].id}]
